@@ -1209,8 +1209,17 @@ class Emitter:
                 return tgt
         return None
 
-    def callee_name(self, key, sig, cls):
+    def callee_name(self, key, sig, cls, n=None, args=None):
         """resolve a callee to a C function name through the spec's call table"""
+        r = self._callee_name(key, sig, cls)
+        if callable(r):
+            # overloaded free functions / operators: the spec chooses by the argument types
+            if n is None:
+                raise Unsupported('callable call-table entry for %s used where the call node is not available' % key)
+            r = r(self, n, args or [])
+        return r
+
+    def _callee_name(self, key, sig, cls):
         full = (cls + '::' + key) if cls else key
         fc = self.f.get('calls', {})
         if full in fc:
@@ -1304,7 +1313,10 @@ class Emitter:
             h = self.spec.get('call_handlers', {}).get(r['name'])
             if h:
                 return h(self, n, args, stmt)
-            cname = self.callee_name(r['name'], sig, None)
+            cname = self.callee_name(r['name'], sig, None, n, args)
+            if isinstance(cname, dict):
+                sig = cname.get('sig', sig)
+                cname = cname['c']
             return self.finish_call(cname, self.args_for(sig, args, cname), n, stmt, sig)
         if callee['kind'] == 'MemberExpr':
             return self.e_CXXMemberCallExpr(n, stmt)
@@ -1437,7 +1449,10 @@ class Emitter:
             h = self.spec.get('call_handlers', {}).get(nm + '|' + sig) or self.spec.get('call_handlers', {}).get(nm)
             if h:
                 return h(self, n, args, stmt)
-            cname = self.callee_name(nm, sig, None)
+            cname = self.callee_name(nm, sig, None, n, args)
+            if isinstance(cname, dict):
+                sig = cname.get('sig', sig)
+                cname = cname['c']
             argl = self.args_for(sig, args, cname)
         return self.finish_call(cname, argl, n, stmt, sig)
 
